@@ -65,7 +65,7 @@ def run():
     ck.cov['distinct_nontrivial'] = len(set(lines)) + r['distinct']
     ck.cov['rule'] = 'divisors 3,5,6,7,9, 2^k+-1, 2^k+2^(k-1), 2^32-1, 2^32-2, seeded random (incl. short ones); no-op divisors 0 and 2^0..2^31 x 8 destination registers; a sweep in C++ with 128-bit integers (quick: every 32nd divisor from a seeded offset = 2^27 divisors; thorough: all 2^32) as measured mismatch counts, tied to the TLA+ definition by the sampled events'
     ck.sample(lines[0])
-    ck.sample([l for l in lines if l.startswith('{"e":"step"')][0][:600])
+    ck.sample(([l for l in lines if l.startswith('{"e":"step"')] or [''])[0][:600])
     ck.assumptions += ['the exhaustive 2^32 sweep (thorough tier) evaluates the defining inequality in C++ (unsigned __int128); TLC evaluates it on the sampled divisors only']
     if not res['rejected']:
         shutil.rmtree(wd, ignore_errors=True)
